@@ -77,12 +77,19 @@ CHECKS = [
          text='Partial. Proved: for any linear element-mean functionals, if the density solves the assembled system '
               'then the residual has zero mean on every element, PROVIDED the five signs and the row/column convention '
               'cancel -- and the signs regenerated on every run from example.py, ErrorEstimator.residual and '
-              'bilform_matrix do cancel (decide); element integrals of the Dirichlet data are proved. Tie: the '
+              'bilform_matrix do cancel (decide). The data of problems.py are regenerated into Lean on every run (all 14 functions '
+              'and the dispatch table of problem_helper) and proved consistent: g-linform is the element integral of g; every '
+              'closed-form M0u0 (erf forms and the complex-erf forms) IS the heat-kernel potential of the generated u0 over the '
+              'domain; the Singular M0u0 solve the heat equation and tend to the indicator of the domain; exp(-lambda t) u0 solves '
+              'the Smooth problems and the generated u_neumann is its outward normal derivative on every side of the '
+              'parametrisation (Python % included); special functions are parameters with stated laws, for which a model is '
+              'constructed in Lean. Tie: the real functions of problems.py run on exact numbers = generated terms; the '
               'assembly statements cut out of example.py are executed on a synthetic causal operator and the REAL '
               'residual closure must have vanishing element means. On real data the hypotheses hold only to quadrature '
               'accuracy: the 5e-5 bound is exercised by the search on the shipped problems.',
-         note='quadrature accuracy of the real operators and the complex-erf closed forms of the Smooth problems are not '
-              'covered by theorems; translator patterns trusted'),
+         note='quadrature accuracy of the real operators is not covered by theorems; heat equation / initial value of the two '
+              'complex-erf closed forms are not proved (their potential representation is); that SciPy erf / NumPy exp are '
+              'the functions with the assumed laws, and the translator patterns, are trusted'),
     dict(id='C01', design_ref='DESIGN.md section 6 / C01', category='proof',
          technique='Lean 4 theorems on the panel recursion / request / generated kernels; control flow of __integrate / bilform regenerated from source each run (translate/panels.py) and proved equal to the model; exact execution of the real bilform (Q numbers, stand-in special functions); formula translator',
          text='Partial. Proved for all rational inputs: the panel recursion of __integrate is total on grid-aligned inputs, '
@@ -148,7 +155,10 @@ CHECKS = [
               'linear in u0, both branches of the generated time kernel, exactness of the 3-D Duffy rules on polynomials '
               '(C15). Tie: the REAL linform with exp1 replaced by polynomials equals the closed-form polynomial integral over '
               'domain x segment to 1e-10 for dyadic segments on all three domains (cell classes, Jacobians, tiling). The '
-              '1e-5 accuracy for the true kernel is searched against the closed-form potentials.',
+              '1e-5 accuracy for the true kernel is searched against the closed-form potentials. Those closed forms are '
+              'themselves regenerated from problems.py and proved (Props/C03Problems.lean) to be the heat-kernel potentials '
+              'int_Omega G(t, x-y) u0(y) dy of the generated u0 = 1 (unit square, L-shape) and of the sine products (unit and '
+              'pi square, complex-erf forms), with the special functions as parameters with stated laws.',
          note='accuracy for the non-polynomial kernel E1 is not a theorem (searched, 1e-5); set iteration order of leaf_elements is not modelled (contributions compared sorted by element index); pi-square tied with the stand-in pi := 25/8'),
     dict(id='C13', design_ref='DESIGN.md section 6 / C13', category='proof',
          technique='Lean 4 verified certificate checker (LDL^T pivots of sym(A) - mu diag(A), proved sound AND complete over every ordered field, transfer Q -> R) run as compiled Lean code on the exact values of the assembled binary64 matrices + Lean theorems for the consequences',
